@@ -179,7 +179,7 @@ def gen_cases(ctx):
         for nodes in g3: add(nodes, 0, 1, "exhaustive-3")
     else:
         for nodes in rng.sample(g3, 1500): add(nodes, rng.randrange(3), rng.randrange(3), "sampled-3")
-    for _ in range(ctx.scale(700, 20000)):
+    for _ in range(ctx.scale(700, 5000)):
         n = rng.choice([3, 4, 4, 5, 5, 6, 6])
         nodes = random_graph(rng, n, rng.random() < 0.5)
         add(nodes, rng.randrange(n), rng.randrange(n), "random")
